@@ -65,6 +65,11 @@ class SymVal:
         return f"<{self.label}>"
 
 
+#: (a, b) for every direct ``a == b`` evaluated on opaque nodes (i.e. an
+#: equality that did NOT go through a comparer's memoised ``rec``)
+EQ_LOG: list = []
+
+
 class _OpaqueMixin:
     def _init_opaque(self, label, mode, rank=0):
         s = object.__setattr__
@@ -81,6 +86,7 @@ class _OpaqueMixin:
         if o is self:
             return True
         if isinstance(o, _OpaqueMixin):
+            EQ_LOG.append((self, o))
             return mk_bool(R(self._u, o._u))
         return False
 
@@ -107,6 +113,17 @@ class OpaqueArray(_OpaqueMixin, Array):
     # a mapper that tries to look inside must not succeed silently
     def __getitem__(self, idx):
         raise EngineFault("indexing an opaque array")
+
+    def _with_new_tags(self, tags):
+        """Same (unknown) array with other tags: value-equal by definition."""
+        o = object.__new__(OpaqueArray)
+        for k, v in vars(self).items():
+            object.__setattr__(o, k, v)
+        object.__setattr__(o, "_label", self._label + "+tags")
+        object.__setattr__(o, "_u", z3.Const(self._label + "+tags", U))
+        object.__setattr__(o, "tags", tags)
+        object.__setattr__(o, "_tag_variant_of", self)
+        return o
 
 
 def mk_opaque_array(label, mode, *, rank=1, shape=None, dtype=np.float64):
